@@ -450,11 +450,11 @@ def writers_contract():
         out = [("one line per tree written so far", S.var("__lines").t == i)]
         if "w" in st.env and "pp" in st.env:
             pp = st.heap[S.var("pp").addr]
-            out.append(("the printer's width is the current w and at least 80", z3.And(S.var("w").t >= 80, S.eng.as_int(pp.fields["width"]) == S.var("w").t)))
+            out.append(("the printer's width is the current w and at least 80", z3.And(S.var("w").t >= 80, S.eng.as_int(pp.fields["_width"]) == S.var("w").t)))
         return out
 
     def loop_select(node):
-        ls = LoopSpec(inv, havoc_types={"s": T.label, "t": T.list(T.label), "tree": T.list(T.label), "pp": T("obj", "PrettyPrinter", (("width", T.int),))})
+        ls = LoopSpec(inv, havoc_types={"s": T.label, "t": T.list(T.label), "tree": T.list(T.label), "pp": T("obj", "PrettyPrinter", (("_width", T.int),))})
         ls.ghost = ["__lines"]
         return ls
 
@@ -1112,7 +1112,7 @@ def line_writer_contract(qual, fragment, lists, which=0, mode="w", rank0=True, i
             out = [("one line per item written so far", S.var("__lines").t == before + i)]
             if "w" in st.env and "pp" in st.env:
                 pp = st.heap[S.var("pp").addr]
-                out.append(("the printer's width is the current w and at least 80", z3.And(S.var("w").t >= 80, S.eng.as_int(pp.fields["width"]) == S.var("w").t)))
+                out.append(("the printer's width is the current w and at least 80", z3.And(S.var("w").t >= 80, S.eng.as_int(pp.fields["_width"]) == S.var("w").t)))
             return out
         return inv
 
@@ -1123,7 +1123,7 @@ def line_writer_contract(qual, fragment, lists, which=0, mode="w", rank0=True, i
         if key not in counter["seen"]:
             counter["seen"][key] = counter["n"]
             counter["n"] += 1
-        ls = LoopSpec(inv_for(counter["seen"][key]), havoc_types={"s": T.label, "pp": T("obj", "PrettyPrinter", (("width", T.int),))})
+        ls = LoopSpec(inv_for(counter["seen"][key]), havoc_types={"s": T.label, "pp": T("obj", "PrettyPrinter", (("_width", T.int),))})
         ls.ghost = ["__lines"]
         return ls
 
